@@ -38,11 +38,11 @@ CLAIMED = {
         text=("SchemaValid.tla transcribes the specification's type-system rules as one named predicate per rule (root types, directive definitions, reserved "
               "names, non-empty types, input/output positions, interface implementation with IsSubType covariance / argument invariance / extra required "
               "arguments / deprecation / transitive interfaces, union members, default values through input coercion, OneOf restrictions, unbreakable input "
-              "cycles). Valid generated schemas and every applicable single mutation (12 operators, 21 mutation classes) plus double mutations are built by "
+              "cycles, default-value cycles). Valid generated schemas and every applicable single mutation (12 operators, 21 mutation classes) plus double mutations are built by "
               "three routes (SDL with and without pre-validation, programmatic); TLC decides for each whether the abstract schema is valid and the real "
               "validate_schema must return an empty list exactly then, never raise, and a request against an invalid schema must return those errors only."),
         design_ref="DESIGN.md 5/C20",
-        note="Only emptiness of the error list is compared with SchemaValid (not the per-rule mapping); schemas whose construction raises are outside the statement; default-value cycles are not mutated yet.",
+        note="Only emptiness of the error list is compared with SchemaValid (not the per-rule mapping); schemas whose construction raises are outside the statement; default-value cycles (DefaultCycle, 7 shapes incl. through OneOf values and lists) are part of the mutations.",
         technique="TLC evaluation of SchemaValid.tla on generated and mutated abstract schemas vs the real validate_schema",
     ),
     "C01": dict(
@@ -88,10 +88,15 @@ CLAIMED = {
               "order, seeded generated requests with nested/labelled/if:false/overlapping @defer and @stream under random schedules, early execution off/on) are "
               "applied by TLC exactly as the incremental-delivery format prescribes (Delivery.tla) and compared with the base Executor's response: equality when "
               "the reference is error-free or propagation is disabled, the Withheld relation (subtrees nulled only under a reported error, fields/tails missing "
-              "only under an id completed with errors) otherwise."),
-        design_ref="DESIGN.md 5/C04",
+              "only under an id completed with errors) otherwise. I-spec: Plan.tla transcribes collect_fields with defer usages (visited-fragment rule), "
+              "get_filtered_defer_usage_set, build_execution_plan, the delivery-group maps and the execution groups of nested sub-executors; TLC builds every "
+              "document of its domain with <= 5 (thorough 6) nodes and checks Partition (every field executed exactly once), Antichain (= the WellFormedWork "
+              "assumption of WorkQueue.tla), Closed and Nested on each; the documents with <= 4 (5) nodes and seeded larger ones are executed with a recording "
+              "subclass of IncrementalExecutor and TLC compares the real delivery groups, execution groups and placement with PlanOf (MODEL-DRIFT) and evaluates "
+              "the strict reading of 'withheld' that needs the plan: a leaf lost without a null above it belongs only to fragments reported as failed (LossExplained)."),
+        design_ref="DESIGN.md 5/C04, 10.8",
         note="Trusted: Delivery.tla's Apply/Withheld; the base Executor as reference (itself checked by C02); harness resolvers deterministic per response path.",
-        technique="TLC trace validation of recorded payload sequences against Delivery.tla (AssemblyClause)",
+        technique="TLC trace validation of recorded payload sequences against Delivery.tla (AssemblyClause) + TLC model checking of Plan.tla (MCPlan) with its documents replayed into, and recorded plans validated from, the real IncrementalExecutor (PlanV)",
     ),
     "C05": dict(
         category="model_checking",
